@@ -322,17 +322,7 @@ Theorem legal_history_is_a_map : forall (val : N -> option N) l1 l2,
      (hit = true <-> reg l1 k (val k) = Some old)) /\
   (forall tid k old hit, legal val (l1 ++ LCad tid k old hit :: l2) = true ->
      (hit = true <-> reg l1 k (val k) = Some old)).
-Proof.
-  intros val l1 l2. repeat split.
-  - intros tid k r. apply legal_get_latest.
-  - intros tid l k v. apply legal_scan_latest.
-  - apply (legal_evict_own val l1 tid own ks l2 H).
-  - apply (legal_evict_own val l1 tid own ks l2 H).
-  - apply (legal_cas_identity val l1 tid k old v hit l2 H).
-  - apply (legal_cas_identity val l1 tid k old v hit l2 H).
-  - apply (legal_cad_identity val l1 tid k old hit l2 H).
-  - apply (legal_cad_identity val l1 tid k old hit l2 H).
-Qed.
+Proof. exact Proofs_lin.legal_reading. Qed.
 Print Assumptions legal_history_is_a_map.
 
 (* a run with the code's own hashes: thread 1 reads value 1 under key 5, thread 2 stores
